@@ -155,13 +155,13 @@ def fs_desc(draw, share=True, falsy=None):
 
 
 def fs_to_text(desc):
-    """text form for re-entrancy-free descriptions (None if a node is shared)"""
+    """text form of a description (None when it has none): an atomic feature without value is written as a
+    variable ?v<node>, so two features sharing such a node share the variable; a shared complex node, a value that
+    is not a non-empty string and a node that is complex and empty have no text form"""
     count = {}
     for n in desc:
         for j in n.get("content", {}).values():
             count[j] = count.get(j, 0) + 1
-    if any(c > 1 for c in count.values()):
-        return None
 
     def txt(i):
         n = desc[i]
@@ -169,16 +169,18 @@ def fs_to_text(desc):
         for f, j in sorted(n["content"].items()):
             c = desc[j]
             if c["content"]:
+                if count.get(j, 0) > 1:
+                    return None    # a shared complex node cannot be written
                 inner = txt(j)
                 if inner is None:
                     return None
                 parts.append("%s=[%s]" % (f, inner))
             elif c["value"] is not None:
-                if not isinstance(c["value"], str) or not c["value"]:
+                if count.get(j, 0) > 1 or not isinstance(c["value"], str) or not c["value"]:
                     return None    # only non-empty strings can be written in the text form
                 parts.append("%s=%s" % (f, c["value"]))
             else:
-                return None        # an unspecified atomic feature has no plain text form
+                parts.append("%s=?v%d" % (f, j))
         return ",".join(parts)
     return txt(0)
 
@@ -259,6 +261,19 @@ def fcfg_desc(draw, features=True, eps=True):
                 p = [head, ({sig[head][0]: "?x"} if sig[head] and draw(st.booleans()) else {}), body]
                 if p not in prods:
                     prods.append(p)
+    # one head with a feature variable and several alternatives that use it (written on one line with | when the
+    # case asks for the alternatives syntax)
+    others_ = [nme for nme in names if sig[nme]]
+    if features and others_ and draw(st.sampled_from([0, 0, 1])) == 1:
+        h = draw(st.sampled_from(others_))
+        f = sig[h][0]
+        b1, b2 = draw(st.sampled_from(others_)), draw(st.sampled_from(others_))
+        group = [[h, {f: "?x"}, [["T", draw(st.sampled_from(terms))]]],
+                 [h, {f: "?x"}, [["V", b1, {sig[b1][0]: "?x"}]]],
+                 [h, {f: "?x"}, [["T", draw(st.sampled_from(terms))], ["V", b2, {sig[b2][0]: "?x"}]]]]
+        for p in group[:draw(st.sampled_from([2, 3]))]:
+            if p not in prods and not (len(p[2]) == 1 and p[2][0][0] == "V" and p[2][0][1] == h):
+                prods.append(p)
     # re-entrancy against no re-entrancy: twin productions of a two-feature variable, one sharing a value between
     # its features and one not, under a production that hands the two features to two different constituents
     two = [nme for nme in names if len(sig[nme]) == 2]
@@ -299,10 +314,11 @@ def fcfg_text(d, alternatives=False):
     if alternatives:
         groups = {}
         for h, hf, body in d["prods"]:
-            # variables are scoped per line: only merge productions without feature variables
-            uses_var = any(str(v).startswith("?") for v in hf.values()) or \
-                any(b[0] == "V" and any(str(v).startswith("?") for v in b[2].values()) for b in body)
-            key = (h, _feat_text(hf)) if not uses_var else (h, _feat_text(hf), len(groups))
+            # variables are scoped per line: productions are merged when every variable of the body is one of the
+            # head's (each alternative then refers to the head's variables only, exactly as on a line of its own)
+            head_vars = {v for v in hf.values() if str(v).startswith("?")}
+            body_vars = {v for b in body if b[0] == "V" for v in b[2].values() if str(v).startswith("?")}
+            key = (h, _feat_text(hf)) if body_vars <= head_vars else (h, _feat_text(hf), len(groups))
             groups.setdefault(key, []).append(body)
         for key, bodies in groups.items():
             alts = []
